@@ -89,6 +89,7 @@ func (g *vGateEnv) bypass() bool {
 	return vOr(preflight, g.p.isAllowedRoute(g.req))
 }
 
+// Proxy forwards upstream only for a bypass or a valid, authorised session (validator and provider consulted on every request); refusals are 401/403/sign-in and clear the cookie; converse
 // verif: unwind=5 strlen=10 also=C08,C13
 func vh_C01_gate_proxy() {
 	g := vNewGate()
@@ -124,6 +125,7 @@ func vh_C01_gate_proxy() {
 	}
 }
 
+// the auth-only endpoint answers 202 only for a bypass or a valid, authorised session; 401/403 otherwise; never touches the upstream
 // verif: unwind=5 strlen=10 also=C08,C13
 func vh_C01_gate_authonly() {
 	g := vNewGate()
@@ -146,6 +148,7 @@ func vh_C01_gate_authonly() {
 	verifAssert("C01.authonly.never-upstream", g.upstream == 0)
 }
 
+// user info is disclosed only for a bypass or a valid, authorised session
 // verif: unwind=5 strlen=10 also=C13
 func vh_C01_gate_userinfo() {
 	g := vNewGate()
